@@ -289,6 +289,8 @@ Section invariant.
   Variable skinreg : Prop.
   (* the commands application systems may issue *)
   Variable appP : cmd -> Prop.
+  (* the keys under which deferred commands may be buffered *)
+  Variable keyOK : N -> Prop.
 
   Hypothesis inb_spawn : forall u, inb (MSpawn u) -> known u.
   Hypothesis inb_vt : forall u t v, inb (MComp u t v) -> vt t v.
@@ -342,6 +344,7 @@ Section invariant.
     i_order : p_order pr = order;
     i_out : forall d m, In (d, m) (p_out pr) -> msg_ok m;
     i_cmdq : forall k cs c, p_cmdq pr !! k = Some cs -> In c cs -> cmd_ok c;
+    i_keys : forall k cs, p_cmdq pr !! k = Some cs -> keyOK k;
     i_app : forall n c, In (n, c) (p_app_cmds pr) -> appP c;
     i_queue : forall x, In x (t_queue pr) -> qP x;
     i_inbox : forall from l m, n_inbox pr !! from = Some l -> In m l -> inb m;
@@ -353,7 +356,7 @@ Section invariant.
 
   Lemma Inv_view pr pr' : view pr = view pr' -> Inv pr -> Inv pr'.
   Proof.
-    unfold view. intros Hv [? ? ? ? ? ? ? ? ? ? ? ? ? ? ?].
+    unfold view. intros Hv [? ? ? ? ? ? ? ? ? ? ? ? ? ? ? ?].
     injection Hv as E1 E2 E3 E4 E5 E6 E7 E8 E9 E10 E11 E12 E13 E14 E15.
     constructor;
       first [rewrite <- E1|rewrite <- E2|rewrite <- E3|rewrite <- E4|rewrite <- E5|rewrite <- E6
@@ -375,8 +378,9 @@ Section invariant.
   Proof. intros [] Ho. constructor; try assumption. Qed.
 
   Lemma Inv_set_cmdq pr q :
-    Inv pr -> (forall k cs c, q !! k = Some cs -> In c cs -> cmd_ok c) -> Inv (pr <| p_cmdq := q |>).
-  Proof. intros [] Ho. constructor; try assumption. Qed.
+    Inv pr -> (forall k cs c, q !! k = Some cs -> In c cs -> cmd_ok c) ->
+    (forall k cs, q !! k = Some cs -> keyOK k) -> Inv (pr <| p_cmdq := q |>).
+  Proof. intros [] Ho Hk. constructor; try assumption. Qed.
 
   Lemma Inv_set_app pr q :
     Inv pr -> (forall n c, In (n, c) q -> appP c) -> Inv (pr <| p_app_cmds := q |>).
@@ -436,14 +440,16 @@ Section invariant.
   Lemma inb_msg_ok m : inb m -> msg_ok m.
   Proof. intros H. destruct m; simpl; auto. Qed.
 
-  Lemma Inv_push_cmd pr k c : Inv pr -> cmd_ok c -> Inv (push_cmd pr k c).
+  Lemma Inv_push_cmd pr k c : keyOK k -> Inv pr -> cmd_ok c -> Inv (push_cmd pr k c).
   Proof.
-    intros HI Hc. unfold push_cmd. apply Inv_set_cmdq; [exact HI|].
-    intros k' cs c' Hl Hin. destruct (decide (k' = k)) as [->|Hne].
-    - rewrite lookup_insert in Hl. injection Hl as <-.
-      apply in_app_or in Hin as [Hin|[<-|[]]]; [|exact Hc].
-      destruct (p_cmdq pr !! k) eqn:E; simpl in Hin; [eapply i_cmdq; eassumption|destruct Hin].
-    - rewrite lookup_insert_ne in Hl by congruence. eapply i_cmdq; eassumption.
+    intros Hk HI Hc. unfold push_cmd. apply Inv_set_cmdq; [exact HI| |].
+    - intros k' cs c' Hl Hin. destruct (decide (k' = k)) as [->|Hne].
+      + rewrite lookup_insert in Hl. injection Hl as <-.
+        apply in_app_or in Hin as [Hin|[<-|[]]]; [|exact Hc].
+        destruct (p_cmdq pr !! k) eqn:E; simpl in Hin; [eapply i_cmdq; eassumption|destruct Hin].
+      + rewrite lookup_insert_ne in Hl by congruence. eapply i_cmdq; eassumption.
+    - intros k' cs Hl. destruct (decide (k' = k)) as [->|Hne]; [exact Hk|].
+      rewrite lookup_insert_ne in Hl by congruence. eapply i_keys; eassumption.
   Qed.
 
   Lemma Inv_set_panic pr s : Inv pr -> Inv (set_panic pr s).
@@ -552,7 +558,7 @@ Section invariant.
   Ltac inv_step := first
     [ assumption
     | apply Inv_send | apply Inv_send_all | apply Inv_broadcast | apply Inv_relay_except | apply Inv_send_up
-    | apply Inv_push_cmd | apply Inv_set_panic | apply Inv_add_child | apply Inv_set_parent_twice
+    | apply Inv_push_cmd; [assumption| |] | apply Inv_set_panic | apply Inv_add_child | apply Inv_set_parent_twice
     | apply Inv_upd_ent_same; [|same_ent]
     | apply inb_msg_ok
     | peel_irr ].
@@ -644,8 +650,9 @@ Section invariant.
     intros HI. unfold flush. apply foldl_inv; [exact HI|]. intros a s _ Ha. cbv zeta.
     destruct (p_cmdq a !! sys_key s) as [cs|] eqn:E; [|exact Ha].
     apply Inv_apply_cmds.
-    - apply Inv_set_cmdq; [exact Ha|]. intros k' cs' c' Hl Hin.
-      apply lookup_delete_Some in Hl as [_ Hl]. eapply i_cmdq; eassumption.
+    - apply Inv_set_cmdq; [exact Ha| |].
+      + intros k' cs' c' Hl Hin. apply lookup_delete_Some in Hl as [_ Hl]. eapply i_cmdq; eassumption.
+      + intros k' cs' Hl. apply lookup_delete_Some in Hl as [_ Hl]. eapply i_keys; eassumption.
     - intros c Hc. eapply i_cmdq; eassumption.
   Qed.
 
@@ -673,14 +680,14 @@ Section invariant.
 
   (* ---- systems ---- *)
 
-  Lemma Inv_entity_created server pr k last : Inv pr -> Inv (entity_created server pr k last).
+  Lemma Inv_entity_created server pr k last : keyOK k -> Inv pr -> Inv (entity_created server pr k last).
   Proof.
-    intros HI. unfold entity_created. apply foldl_inv; [exact HI|].
+    intros Hk HI. unfold entity_created. apply foldl_inv; [exact HI|].
     intros a [e en] Hin Ha. destruct (newly_marked last en) eqn:Hn; [|exact Ha]. cbv zeta.
     assert (Hm : markP e).
     { apply In_map_to_list in Hin. destruct (i_ents pr HI _ _ Hin) as (_ & Hm & _).
       apply Hm. unfold newly_marked in Hn. destruct (en_mark en); [discriminate|discriminate]. }
-    apply Inv_push_cmd; [|apply mark_known; exact Hm].
+    apply (Inv_push_cmd _ _ _ Hk); [|apply mark_known; exact Hm].
     destruct server.
     - apply Inv_track; [|apply mark_known; exact Hm|apply mark_key; exact Hm].
       apply Inv_broadcast; [exact Ha|]. right. apply mark_known; exact Hm.
@@ -787,52 +794,52 @@ Section invariant.
   Qed.
 
   Lemma Inv_fix_system pr k last trigger without companions :
-    Inv pr -> Inv (fix_system pr k last trigger without companions).
+    keyOK k -> Inv pr -> Inv (fix_system pr k last trigger without companions).
   Proof.
-    intros HI. unfold fix_system. apply foldl_inv; [exact HI|].
-    intros a [e en] _ Ha. repeat dm; try exact Ha. apply Inv_push_cmd; [exact Ha|exact I].
+    intros Hk HI. unfold fix_system. apply foldl_inv; [exact HI|].
+    intros a [e en] _ Ha. repeat dm; try exact Ha. apply (Inv_push_cmd _ _ _ Hk); [exact Ha|exact I].
   Qed.
 
   Lemma Inv_request_asset pr c a owner : Inv pr -> Inv (request_asset pr c a owner).
   Proof. intros HI. unfold request_asset. dm; [exact HI|irr]. Qed.
 
-  Lemma Inv_server_received pr k from m : Inv pr -> inb m -> Inv (server_received pr k from m).
+  Lemma Inv_server_received pr k from m : keyOK k -> Inv pr -> inb m -> Inv (server_received pr k from m).
   Proof.
-    intros HI Hm. destruct m; unfold server_received; cbv beta iota zeta.
+    intros Hk HI Hm. destruct m; unfold server_received; cbv beta iota zeta.
     - (* MSpawn *) pose proof (inb_spawn _ Hm) as Hu. pose proof (i_next pr HI) as Hn.
       apply Inv_relay_except; [|apply inb_msg_ok; exact Hm].
       apply Inv_track; [|exact Hu|apply fresh_key; exact Hn].
-      apply Inv_push_cmd; [|exact Hu]. peel_irr. apply Inv_set_next; [exact HI|lia].
-    - (* MParented *) apply Inv_push_cmd; [exact HI|exact Hm].
+      apply (Inv_push_cmd _ _ _ Hk); [|exact Hu]. peel_irr. apply Inv_set_next; [exact HI|lia].
+    - (* MParented *) apply (Inv_push_cmd _ _ _ Hk); [exact HI|exact Hm].
     - (* MDelete *) apply Inv_relay_except; [|apply inb_msg_ok; exact Hm].
       destruct (t_u2e pr !! u) as [e|]; [|exact HI]. destruct (cmd_get_entity pr e); [|exact HI].
-      apply Inv_untrack. apply Inv_push_cmd; [exact HI|exact I].
+      apply Inv_untrack. apply (Inv_push_cmd _ _ _ Hk); [exact HI|exact I].
     - (* MComp *) destruct (t_u2e pr !! u) as [e|]; [|exact HI].
-      apply Inv_push_cmd; [exact HI|]. split; [intros _; exact Hm|eapply inb_vt; exact Hm].
-    - (* MMaterial *) apply Inv_push_cmd; [exact HI|]. intros _. exact Hm.
-    - (* MAsset *) apply Inv_push_cmd; [apply Inv_request_asset; exact HI|exact Hm].
+      apply (Inv_push_cmd _ _ _ Hk); [exact HI|]. split; [intros _; exact Hm|eapply inb_vt; exact Hm].
+    - (* MMaterial *) apply (Inv_push_cmd _ _ _ Hk); [exact HI|]. intros _. exact Hm.
+    - (* MAsset *) apply (Inv_push_cmd _ _ _ Hk); [apply Inv_request_asset; exact HI|exact Hm].
     - exact HI.
-    - (* MNewHost *) apply Inv_push_cmd; [|exact I]. apply Inv_relay_except; [|exact I]. irr.
-    - apply Inv_push_cmd; [exact HI|exact I].
+    - (* MNewHost *) apply (Inv_push_cmd _ _ _ Hk); [|exact I]. apply Inv_relay_except; [|exact I]. irr.
+    - apply (Inv_push_cmd _ _ _ Hk); [exact HI|exact I].
     - exact HI.
   Qed.
 
-  Lemma Inv_client_received pr k m : Inv pr -> inb m -> Inv (client_received pr k m).
+  Lemma Inv_client_received pr k m : keyOK k -> Inv pr -> inb m -> Inv (client_received pr k m).
   Proof.
-    intros HI Hm. destruct m; unfold client_received; cbv beta iota zeta.
+    intros Hk HI Hm. destruct m; unfold client_received; cbv beta iota zeta.
     - (* MSpawn *) pose proof (inb_spawn _ Hm) as Hu. pose proof (i_next pr HI) as Hn.
       match goal with |- Inv (if ?b then _ else _) => destruct b end; [exact HI|].
       apply Inv_track; [|exact Hu|apply fresh_key; exact Hn].
-      apply Inv_push_cmd; [|exact Hu]. peel_irr. apply Inv_set_next; [exact HI|lia].
-    - (* MParented *) repeat dm; try exact HI. apply Inv_push_cmd; [exact HI|exact I].
+      apply (Inv_push_cmd _ _ _ Hk); [|exact Hu]. peel_irr. apply Inv_set_next; [exact HI|lia].
+    - (* MParented *) repeat dm; try exact HI. apply (Inv_push_cmd _ _ _ Hk); [exact HI|exact I].
     - (* MDelete *) destruct (t_u2e pr !! u) as [e|]; [|exact HI]. destruct (cmd_get_entity pr e); [|exact HI].
-      apply Inv_push_cmd; [|exact I]. apply Inv_untrack. exact HI.
+      apply (Inv_push_cmd _ _ _ Hk); [|exact I]. apply Inv_untrack. exact HI.
     - (* MComp *) destruct (t_u2e pr !! u) as [e|]; [|exact HI].
-      apply Inv_push_cmd; [exact HI|]. split; [intros Hx; exfalso; apply Hx; reflexivity|eapply inb_vt; exact Hm].
-    - (* MMaterial *) apply Inv_push_cmd; [exact HI|]. intros Hx. exfalso. apply Hx. reflexivity.
+      apply (Inv_push_cmd _ _ _ Hk); [exact HI|]. split; [intros Hx; exfalso; apply Hx; reflexivity|eapply inb_vt; exact Hm].
+    - (* MMaterial *) apply (Inv_push_cmd _ _ _ Hk); [exact HI|]. intros Hx. exfalso. apply Hx. reflexivity.
     - (* MAsset *) apply Inv_request_asset; exact HI.
-    - apply Inv_push_cmd; [exact HI|exact I].
-    - (* MNewHost *) peel_irr. apply Inv_push_cmd; [|exact I]. apply Inv_push_cmd; [|exact I]. irr.
+    - apply (Inv_push_cmd _ _ _ Hk); [exact HI|exact I].
+    - (* MNewHost *) peel_irr. apply (Inv_push_cmd _ _ _ Hk); [|exact I]. apply (Inv_push_cmd _ _ _ Hk); [|exact I]. irr.
     - exact HI.
     - irr.
   Qed.
@@ -849,58 +856,59 @@ Section invariant.
     - eapply i_inbox; [exact HI|exact E|left; reflexivity].
   Qed.
 
-  Lemma Inv_server_poll pr k froms : Inv pr -> Inv (server_poll pr k froms).
+  Lemma Inv_server_poll pr k froms : keyOK k -> Inv pr -> Inv (server_poll pr k froms).
   Proof.
-    intros HI. unfold server_poll. apply foldl_inv; [exact HI|].
+    intros Hk HI. unfold server_poll. apply foldl_inv; [exact HI|].
     intros a from _ Ha. destruct (pop_inbox a from) as [[m a']|] eqn:E; [|exact Ha].
     destruct (Inv_pop_inbox _ _ _ _ E Ha). apply Inv_server_received; assumption.
   Qed.
 
-  Lemma Inv_client_poll pr k host n : Inv pr -> Inv (client_poll pr k host n).
+  Lemma Inv_client_poll pr k host n : keyOK k -> Inv pr -> Inv (client_poll pr k host n).
   Proof.
-    intros HI. unfold client_poll. apply foldl_inv; [exact HI|].
+    intros Hk HI. unfold client_poll. apply foldl_inv; [exact HI|].
     intros a from _ Ha. destruct (pop_inbox a host) as [[m a']|] eqn:E; [|exact Ha].
     destruct (Inv_pop_inbox _ _ _ _ E Ha). apply Inv_client_received; assumption.
   Qed.
 
-  Lemma Inv_client_connected pr k : Inv pr -> Inv (client_connected pr k).
+  Lemma Inv_client_connected pr k : keyOK k -> Inv pr -> Inv (client_connected pr k).
   Proof.
-    intros HI. unfold client_connected. cbv zeta. apply foldl_inv; [irr|].
-    intros a [connected c] _ Ha. repeat dm; try exact Ha; (apply Inv_push_cmd; [irr|exact I]).
+    intros Hk HI. unfold client_connected. cbv zeta. apply foldl_inv; [irr|].
+    intros a [connected c] _ Ha. repeat dm; try exact Ha; (apply (Inv_push_cmd _ _ _ Hk); [irr|exact I]).
   Qed.
 
-  Lemma Inv_verify_client_connected pr k : Inv pr -> Inv (verify_client_connected pr k).
+  Lemma Inv_verify_client_connected pr k : keyOK k -> Inv pr -> Inv (verify_client_connected pr k).
   Proof.
-    intros HI. unfold verify_client_connected. destruct (n_status pr); try exact HI. cbv zeta.
-    dm; [apply Inv_push_cmd; [irr|exact I]|irr].
+    intros Hk HI. unfold verify_client_connected. destruct (n_status pr); try exact HI. cbv zeta.
+    dm; [apply (Inv_push_cmd _ _ _ Hk); [irr|exact I]|irr].
   Qed.
 
   Lemma Inv_run_body pr s o :
+    keyOK (sys_key s) ->
     Inv pr -> (forall t, s = SDetect t -> forall x, detect_witness pr t x -> qP x) ->
     asset_gate mat mesh audio s -> Inv (run_body pr s o).
   Proof.
-    intros HI Hd Hg. unfold run_body, begin_run, end_run. cbv beta iota zeta. peel_irr.
+    intros Hk HI Hd Hg. unfold run_body, begin_run, end_run. cbv beta iota zeta. peel_irr.
     assert (HI' : Inv (pr <| p_tick := p_tick pr + 1 |>)) by irr.
     destruct s; cbv beta iota;
-      try (apply Inv_fix_system; exact HI');
+      try (apply Inv_fix_system; [exact Hk|exact HI']);
       try (apply Inv_react_assets; [exact HI'|exact Hg]).
     - irr.
     - irr.
     - apply Inv_entity_removed_server; exact HI'.
-    - apply Inv_entity_created; exact HI'.
+    - apply Inv_entity_created; [exact Hk|exact HI'].
     - apply Inv_entity_parented_server; exact HI'.
     - apply Inv_react_components; exact HI'.
     - apply Inv_promote_reader; exact HI'.
-    - apply Inv_client_connected; exact HI'.
-    - apply Inv_server_poll; exact HI'.
+    - apply Inv_client_connected; [exact Hk|exact HI'].
+    - apply Inv_server_poll; [exact Hk|exact HI'].
     - irr.
-    - apply Inv_verify_client_connected; exact HI'.
+    - apply Inv_verify_client_connected; [exact Hk|exact HI'].
     - irr.
     - apply Inv_entity_removed_client; exact HI'.
-    - apply Inv_entity_created; exact HI'.
+    - apply Inv_entity_created; [exact Hk|exact HI'].
     - apply Inv_entity_parented_client; exact HI'.
     - apply Inv_react_components; exact HI'.
-    - dm; [|exact HI']. dm. apply Inv_client_poll; exact HI'.
+    - dm; [|exact HI']. dm. apply Inv_client_poll; [exact Hk|exact HI'].
     - apply Inv_process_assets; exact HI'.
     - apply Inv_process_assets; exact HI'.
     - apply Inv_process_assets; exact HI'.
@@ -910,48 +918,49 @@ Section invariant.
       + apply Inv_set_app; [exact HI'|]. intros n c Hin. apply elem_of_list_In in Hin.
         apply elem_of_list_filter in Hin as [_ Hin]. apply elem_of_list_In in Hin.
         exact (i_app _ HI' _ _ Hin).
-      + intros a [n c] Hin Ha. apply Inv_push_cmd; [exact Ha|]. apply elem_of_list_In in Hin.
+      + intros a [n c] Hin Ha. apply (Inv_push_cmd _ _ _ Hk); [exact Ha|]. apply elem_of_list_In in Hin.
         apply elem_of_list_filter in Hin as [_ Hin]. apply elem_of_list_In in Hin.
         apply app_cmd_ok. exact (i_app _ HI' _ _ Hin).
   Qed.
 
   Lemma Inv_run_system pr s o :
+    keyOK (sys_key s) ->
     Inv pr -> (forall t, s = SDetect t -> forall x, detect_witness pr t x -> qP x) ->
     Inv (run_system pr s o).
   Proof.
-    intros HI Hd. unfold run_system. destruct (p_panic pr); [exact HI|]. cbv zeta.
+    intros Hk HI Hd. unfold run_system. destruct (p_panic pr); [exact HI|]. cbv zeta.
     destruct s; cbv beta iota;
       unfold cond_resource_added, cond_resource_removed, begin_run, end_run; cbv beta iota zeta;
       try (apply Inv_flush; exact HI);
-      try (apply Inv_run_body; [exact HI|intros ? ?; discriminate|exact I]).
+      try (apply Inv_run_body; [exact Hk|exact HI|intros ? ?; discriminate|exact I]).
     all: try (repeat dm;
               first [exact HI | irr
-                    | apply Inv_run_body; [first [exact HI|irr]|intros ? ?; discriminate|exact I]]).
+                    | apply Inv_run_body; [exact Hk|first [exact HI|irr]|intros ? ?; discriminate|exact I]]).
     - (* SSrvMat *) destruct (server_gate pr && t_mat pr) eqn:G; [|exact HI].
-      apply andb_true_iff in G as [_ G]. apply Inv_run_body; [exact HI|intros ? ?; discriminate|].
+      apply andb_true_iff in G as [_ G]. apply Inv_run_body; [exact Hk|exact HI|intros ? ?; discriminate|].
       simpl. rewrite <- (i_mat pr HI). exact G.
     - (* SSrvImg *) destruct (server_gate pr && t_mat pr) eqn:G; [|exact HI].
-      apply andb_true_iff in G as [_ G]. apply Inv_run_body; [exact HI|intros ? ?; discriminate|].
+      apply andb_true_iff in G as [_ G]. apply Inv_run_body; [exact Hk|exact HI|intros ? ?; discriminate|].
       simpl. rewrite <- (i_mat pr HI). exact G.
     - (* SSrvMesh *) destruct (server_gate pr && t_mesh pr) eqn:G; [|exact HI].
-      apply andb_true_iff in G as [_ G]. apply Inv_run_body; [exact HI|intros ? ?; discriminate|].
+      apply andb_true_iff in G as [_ G]. apply Inv_run_body; [exact Hk|exact HI|intros ? ?; discriminate|].
       simpl. rewrite <- (i_mesh pr HI). exact G.
     - (* SSrvAudio *) destruct (server_gate pr && t_audio pr) eqn:G; [|exact HI].
-      apply andb_true_iff in G as [_ G]. apply Inv_run_body; [exact HI|intros ? ?; discriminate|].
+      apply andb_true_iff in G as [_ G]. apply Inv_run_body; [exact Hk|exact HI|intros ? ?; discriminate|].
       simpl. rewrite <- (i_audio pr HI). exact G.
     - (* SCliMat *) destruct (client_gate pr && t_mat pr) eqn:G; [|exact HI].
-      apply andb_true_iff in G as [_ G]. apply Inv_run_body; [exact HI|intros ? ?; discriminate|].
+      apply andb_true_iff in G as [_ G]. apply Inv_run_body; [exact Hk|exact HI|intros ? ?; discriminate|].
       simpl. rewrite <- (i_mat pr HI). exact G.
     - (* SCliImg *) destruct (client_gate pr && t_mat pr) eqn:G; [|exact HI].
-      apply andb_true_iff in G as [_ G]. apply Inv_run_body; [exact HI|intros ? ?; discriminate|].
+      apply andb_true_iff in G as [_ G]. apply Inv_run_body; [exact Hk|exact HI|intros ? ?; discriminate|].
       simpl. rewrite <- (i_mat pr HI). exact G.
     - (* SCliMesh *) destruct (client_gate pr && t_mesh pr) eqn:G; [|exact HI].
-      apply andb_true_iff in G as [_ G]. apply Inv_run_body; [exact HI|intros ? ?; discriminate|].
+      apply andb_true_iff in G as [_ G]. apply Inv_run_body; [exact Hk|exact HI|intros ? ?; discriminate|].
       simpl. rewrite <- (i_mesh pr HI). exact G.
     - (* SCliAudio *) destruct (client_gate pr && t_audio pr) eqn:G; [|exact HI].
-      apply andb_true_iff in G as [_ G]. apply Inv_run_body; [exact HI|intros ? ?; discriminate|].
+      apply andb_true_iff in G as [_ G]. apply Inv_run_body; [exact Hk|exact HI|intros ? ?; discriminate|].
       simpl. rewrite <- (i_audio pr HI). exact G.
-    - (* SDetect *) apply Inv_run_body; [exact HI|exact Hd|exact I].
+    - (* SDetect *) apply Inv_run_body; [exact Hk|exact HI|exact Hd|exact I].
   Qed.
 
   Lemma Inv_pre_update pr o : Inv pr -> Inv (pre_update pr o).
@@ -973,29 +982,32 @@ Section invariant.
   Proof. intros HI. unfold frame_start. apply Inv_state_transition, Inv_pre_update, HI. Qed.
 
   Lemma Inv_run_systems st o l :
+    (forall s, In s l -> keyOK (sys_key s)) ->
     Inv st ->
     (forall pre t post x, l = pre ++ SDetect t :: post ->
        Inv (foldl (fun pr s => run_system pr s o) st pre) ->
        detect_witness (foldl (fun pr s => run_system pr s o) st pre) t x -> qP x) ->
     Inv (foldl (fun pr s => run_system pr s o) st l).
   Proof.
-    intros Hst. induction l as [|s l IH] using rev_ind; intros Hd; [exact Hst|].
+    intros Hks Hst. revert Hks. induction l as [|s l IH] using rev_ind; intros Hks Hd; [exact Hst|].
     rewrite foldl_app. cbn [foldl].
     assert (IH' : Inv (foldl (fun pr s => run_system pr s o) st l)).
-    { apply IH. intros pre t post x -> HI Hw. eapply (Hd pre t (post ++ [s])); [|exact HI|exact Hw].
+    { apply IH; [intros s' Hs'; apply Hks; apply in_or_app; left; exact Hs'|].
+      intros pre t post x -> HI Hw. eapply (Hd pre t (post ++ [s])); [|exact HI|exact Hw].
       rewrite <- app_assoc. reflexivity. }
-    apply Inv_run_system; [exact IH'|]. intros t -> x Hw. eapply (Hd l t []); [reflexivity|exact IH'|exact Hw].
+    apply Inv_run_system; [apply Hks; apply in_or_app; right; left; reflexivity|exact IH'|]. intros t -> x Hw. eapply (Hd l t []); [reflexivity|exact IH'|exact Hw].
   Qed.
 
   Lemma Inv_frame pr o :
     p_panic pr = None -> Inv (pr <| p_out := [] |>) ->
+    (forall s, In s order -> keyOK (sys_key s)) ->
     (forall pre t post x, order = pre ++ SDetect t :: post ->
        Inv (frame_mid pr o pre) -> detect_witness (frame_mid pr o pre) t x -> qP x) ->
     Inv (frame pr o).
   Proof.
-    intros Hp HI Hd. rewrite (frame_unfold pr o Hp). apply Inv_frame_start with (o := o) in HI.
+    intros Hp HI Hks Hd. rewrite (frame_unfold pr o Hp). apply Inv_frame_start with (o := o) in HI.
     rewrite (i_order _ HI). apply Inv_last_schedule.
-    assert (Hm : Inv (frame_mid pr o order)) by (apply Inv_run_systems; [exact HI|exact Hd]).
+    assert (Hm : Inv (frame_mid pr o order)) by (apply Inv_run_systems; [exact Hks|exact HI|exact Hd]).
     destruct (p_panic (frame_mid pr o order)); [exact Hm|apply Inv_flush; exact Hm].
   Qed.
 
